@@ -264,26 +264,43 @@ def inverse_rule(rep, prog, full):
             taken = []
             rows_taken = []
             pivot_bad = []
+            _ce = [None]
 
-            def m_max_by(it, args, callee, depth, prefix=prefix, taken=taken, rows_taken=rows_taken, pivot_bad=pivot_bad):
-                rows = [A.deref_all(it, r) for r in S._drain(S.as_iter(it, args[0]), it, depth)]
-                clo = A.deref_all(it, args[1])
-                ups = [A.deref_all(it, u) for u in clo[2]]
-                this = [u[3][0] if u[0] == "adt" else u for u in ups if isinstance(u, tuple) and u[0] in ("adt", "array")]
-                idx = [u for u in ups if isinstance(u, int)]
-                if len(this) != 1 or not all(isinstance(r, int) for r in rows) or this[0][0] != "array":
-                    raise A.Undecided("pivot search closure does not capture the matrix or its column: %r / rows %r" % ([str(u)[:60] for u in ups], rows))
-                if all(isinstance(e, tuple) and e[0] == "array" for e in this[0][1]):
-                    if len(idx) != 1:
-                        raise A.Undecided("pivot search closure captures a matrix but no column index")
-                    col = {r: this[0][1][r][1][idx[0]] for r in rows}
-                    cidx = idx[0]
-                else:
-                    col = {r: this[0][1][r] for r in rows}         # a copy of the column itself
-                    cidx = len(taken)
-                feasible = [r for r in rows if col[r] != zero]
+            def m_max_by(it, args, callee, depth, prefix=prefix, taken=taken, rows_taken=rows_taken, pivot_bad=pivot_bad, chosen_entries=None):
+                chosen_entries = _ce[0]
+                """The pivot search, whatever it iterates over (row numbers, (index, |entry|) pairs, ...): the key of each item
+                is discovered by running the code's own comparator on (item, item) and recording what it compares; one
+                candidate is taken to have the strictly largest magnitude, and the search — executed faithfully with the
+                comparator under that order — must return that candidate."""
+                items = S._drain(S.as_iter(it, args[0]), it, depth)
+                saved = it.oracle
+
+                def call_cmp(x, y):
+                    cx, cy = A.Frame(None), A.Frame(None)
+                    cx.locals[0], cy.locals[0] = x, y
+                    o = A.deref_all(it, it.invoke(args[1], [("ref", cx, 0, []), ("ref", cy, 0, [])], depth))
+                    if not (isinstance(o, tuple) and o[0] == "adt" and o[1] == "core::cmp::Ordering"):
+                        raise A.Undecided("pivot comparator returned %r" % (o,))
+                    return o[2]
+                keys = []
+                for x in items:
+                    rec = []
+
+                    def probe(op, a_, b_, rec=rec):
+                        if not rec:
+                            rec.append((a_, b_))
+                        return {"Eq": True, "Le": True, "Ge": True}.get(op, False)
+                    it.oracle = probe
+                    try:
+                        call_cmp(A.copy_val(x), A.copy_val(x))
+                    finally:
+                        it.oracle = saved
+                    if not rec or rec[0][0] != rec[0][1]:
+                        raise A.Undecided("the pivot comparator does not compare one key per item (%r)" % (rec[:1],))
+                    keys.append(rec[0][0])
+                feasible = [n for n, k_ in enumerate(keys) if k_ != zero and k_ != ("symop", "abs", zero, None)]
                 if not feasible:
-                    raise A.Undecided("column %d is identically zero" % cidx)
+                    raise A.Undecided("pivot column %d is identically zero" % len(taken))
                 i = len(taken)
                 k = prefix[i] if i < len(prefix) else 0
                 if i >= len(prefix):
@@ -291,22 +308,20 @@ def inverse_rule(rep, prog, full):
                         pending.append(tuple(taken) + (alt,))
                 taken.append(k)
                 chosen = feasible[k]
-                rows_taken.append(chosen)
+                rows_taken.append(chosen + len(taken) - 1 if False else chosen)
 
                 def rank(v):
                     if v == zero:
                         return 0
-                    if isinstance(v, tuple) and v[0] == "symop" and v[1] == "abs":
-                        for r, e in col.items():
-                            if e is v[2] or e == v[2]:
-                                return 2 if r == chosen else 1
-                    # a comparator looking at the SIGNED entries: take the chosen row's entry to be negative (largest
-                    # magnitude) and the others positive — the scenario a signed comparison gets wrong
-                    for r, e in col.items():
-                        if e is v or e == v:
-                            return -1 if r == chosen else 1
+                    for n, k_ in enumerate(keys):
+                        if k_ is v or k_ == v:
+                            mag_key = isinstance(k_, tuple) and k_[0] == "symop" and k_[1] == "abs"
+                            if mag_key:
+                                return 2 if n == chosen else 1
+                            # a comparator looking at SIGNED entries: the chosen entry is taken to be negative with the largest
+                            # magnitude and the others positive — the scenario a signed comparison gets wrong
+                            return -1 if n == chosen else 1
                     return None
-                saved = it.oracle
 
                 def orc(op, a_, b_):
                     ra, rb = rank(a_), rank(b_)
@@ -315,25 +330,27 @@ def inverse_rule(rep, prog, full):
                     return {"Lt": ra < rb, "Gt": ra > rb, "Eq": ra == rb, "Ne": ra != rb, "Le": ra <= rb, "Ge": ra >= rb}[op]
                 it.oracle = orc
                 try:
-                    best = rows[0]
-                    for r in rows[1:]:
-                        cb, cr = A.Frame(None), A.Frame(None)
-                        cb.locals[0], cr.locals[0] = best, r
-                        o = A.deref_all(it, it.invoke(args[1], [("ref", cb, 0, []), ("ref", cr, 0, [])], depth))
-                        if not (isinstance(o, tuple) and o[0] == "adt" and o[1] == "core::cmp::Ordering"):
-                            raise A.Undecided("pivot comparator returned %r" % (o,))
-                        if o[2] != "Greater":
-                            best = r
+                    best = 0
+                    for n in range(1, len(items)):
+                        if call_cmp(A.copy_val(items[best]), A.copy_val(items[n])) != "Greater":
+                            best = n
                 finally:
                     it.oracle = saved
                 if best != chosen:
-                    pivot_bad.append((cidx, chosen, best))
-                return A.some(chosen)
+                    pivot_bad.append((len(taken) - 1, chosen, best))
+                kc = keys[chosen]
+                chosen_entries.append(kc[2] if isinstance(kc, tuple) and kc[0] == "symop" and kc[1] == "abs" else kc)
+                return A.some(items[chosen])
 
-            def generic(op, a_, b_):
+            chosen_entries, tested = [], []
+
+            def generic(op, a_, b_, tested=tested):
                 if op == "Gt" and isinstance(b_, tuple) and b_[0] == "f" and 0 < b_[1] < 1e-6:
                     return True                      # the debug assertion |det| > EPSILON: the matrix is invertible
+                if op in ("Eq", "Ne") and (a_ == zero or b_ == zero):
+                    tested.append(b_ if a_ == zero else a_)       # `pivot != 0.0`: which entry is about to be divided by
                 return {"Eq": False, "Ne": True}.get(op)
+            _ce[0] = chosen_entries
             it = S.interp(prog, models={"Iterator::max_by": m_max_by, "is_finite": lambda *_a: 1}, oracle=generic)
             try:
                 r = it.call_body(body, [S.ref_to(mat)])
@@ -350,8 +367,22 @@ def inverse_rule(rep, prog, full):
                 raise common.Infra("C09.A8: inverse could not be evaluated symbolically on the %s matrix, pivot rows %s (%s)" % (label, rows_taken, e))
             seqs += 1
             wrong = [(n // 4, n % 4) for n, x in enumerate(res) if not x["equal"]]
+            # the entry tested against zero / divided by in column i must be the very entry the search found largest
+            used_wrong = None
+            for ci, ent in enumerate(chosen_entries):
+                if ci < len(tested) and tested[ci] is not ent and tested[ci] != ent:
+                    try:
+                        same = S.field_identities([(tested[ci], ent)])[0]["equal"]
+                    except A.Undecided:
+                        same = False
+                    if not same:
+                        used_wrong = ci
+                        break
+            if used_wrong is not None:
+                problems.append("in column %d (pivot candidates %s) the entry tested against zero and divided by is not the one the pivot search found largest: "
+                                "the row exchange the search asked for is not (fully) carried out" % (used_wrong, rows_taken))
             if pivot_bad:
-                problems.append("the pivot search returns row %d in column %d although row %d has the strictly largest magnitude" % (pivot_bad[0][2], pivot_bad[0][0], pivot_bad[0][1]))
+                problems.append("the pivot search returns candidate #%d in column %d although candidate #%d has the strictly largest magnitude" % (pivot_bad[0][2], pivot_bad[0][0], pivot_bad[0][1]))
             if wrong:
                 problems.append("with pivot rows %s the result N has (N.M)[%d][%d] != %s" % (rows_taken, wrong[0][0], wrong[0][1], "1" if wrong[0][0] == wrong[0][1] else "0"))
         rep.inst("C09.A8", "inverse() on a symbolic %s 4x4 matrix: %d pivot sequences, N.M = I in each: %s" % (label, seqs, "holds" if not problems else "FAILS"), config=cfg)
